@@ -175,7 +175,9 @@ def select(rows, model, head, git_mode):
 def gen_case(rng):
     git_mode = rng.choice(["git"] * 8 + ["nogit", "disabled", "nocommit"])
     c = {"seed": rng.randrange(1 << 30), "git_mode": git_mode, "ncommits": rng.randint(1, 12), "nobs": rng.randint(3, 7), "hostile": realrun.hostile_choice(rng)}
-    if git_mode == "git" and rng.random() < 0.2:
+    if git_mode == "git" and rng.random() < 0.18:
+        c.update(shape="no-ancestor-mix")
+    elif git_mode == "git" and rng.random() < 0.2:
         c.update(shape="unequal-merge", side_len=rng.randint(1, 4), main_len=rng.randint(1, 3), merge_into_side=rng.random() < 0.5)
     return c
 
@@ -226,6 +228,22 @@ def eval_case(case):
         # ---- phase 1: record versions
         nver = rng.randint(0, 6)
         ts_base = 1000
+        if case.get("shape") == "no-ancestor-mix" and model:
+            # only versions that carry no commit, a commit unknown to this repository, or a commit that is
+            # not an ancestor of HEAD: nothing may be reused unless ALL of them lack a commit
+            nver = 0
+            realrun.git(root, "checkout", "-q", "-b", "elsewhere", model.hash["c0"])
+            realrun.git(root, "commit", "-q", "--allow-empty", "-m", "not an ancestor")
+            na = realrun.git(root, "rev-parse", "HEAD")
+            model.parents["x-na"] = ["c0"]
+            model.hash["x-na"] = na
+            realrun.git(root, "checkout", "-q", model.cur_branch or model.hash[model.head])
+            kinds = rng.choice([["null", "foreign"], ["foreign", "null"], ["null", "foreign", "null"], ["null", "nonanc"], ["null", "null"], ["foreign"], ["nonanc", "foreign", "null"], ["null"]])
+            for j, kd in enumerate(kinds):
+                commit = {"null": None, "foreign": FOREIGN, "nonanc": na}[kd]
+                for tid in ("//:e1", "//x:e2"):
+                    insert_version(tid, 700 + j, commit)
+                    log.append(["insert", tid, 700 + j, kd])
         if shape_tips:
             nver = rng.randint(0, 2)
             order = list(shape_tips)
@@ -280,6 +298,8 @@ def eval_case(case):
         # ---- phase 3: observations
         for oi in range(case["nobs"]):
             kind = rng.choice(["where", "where", "run", "run", "atleast", "atleast", "atleast", "thiscommit", "again", "flagconflict"])
+            if oi == 0 and case.get("shape") == "no-ancestor-mix":
+                kind = rng.choice(["where", "run", "run"])
             hh = head_hash()
             allrows = pr.rows()
             if isinstance(allrows, str):
